@@ -42,6 +42,15 @@ Fixpoint toks_eqb (a b : list string) : bool :=
 Definition c06_rule (w : float) (x : expr) : rule float :=
   {| r_enabled := true; r_weight := w; r_antecedent := Some x;
      r_consequent := [{| c_var := 0%nat; c_hedges := []; c_term := 0%nat |}]; r_degree := 0%float; r_triggered := false |}.
+Definition c06_sy_case : Type := (string * list string * result (list string))%type.
+Definition c06_sy_check (c : c06_sy_case) : bool :=
+  let '(text, toks, pf) := c in
+  toks_eqb (format_infix_tokens op_table KW_AND KW_OR text) toks &&
+  match infix_to_postfix_text op_table KW_AND KW_OR text, pf with
+  | Ok a, Ok b => toks_eqb a b
+  | Err x, Err y => err_eqb x y
+  | _, _ => false
+  end.
 Definition c06_case : Type :=
   (engine float * string * option tnormx * option snormx * float * result (list string * result float) * oracle)%type.
 Definition c06_check (c : c06_case) : bool :=
@@ -409,6 +418,70 @@ def postfix_tokens_from_infix_guess(toks):
         return toks + [")"]
 
 
+# --------------------------------------------------------------------------- tokeniser + shunting-yard on formula-like text
+SY_WORDS = ["a", "b1", "x", "2", "0.5", "3e-1", "lo", "is", "very", "and", "or", "max", "min", "pi", "sin", "pow", "atan2", "abs",
+            "+", "-", "*", "/", "%", "^", "**", ".-", ".+", "!", "~", "(", ")", ",", "(", ")"]
+SY_CHARS = "ab1x .()*+-/,^%!~\t"
+
+
+def gen_sy_text(rng):
+    k = rng.random()
+    if k < 0.25:  # character soup
+        return "".join(rng.choice(SY_CHARS) for _ in range(rng.randrange(0, 14)))
+    if k < 0.55:  # token soup
+        toks = [rng.choice(SY_WORDS) for _ in range(rng.randrange(1, 10))]
+    else:  # a well-formed formula, sometimes damaged
+        toks = gen_formula(rng, rng.randrange(0, 4))
+        if rng.random() < 0.25 and toks:
+            if rng.random() < 0.5:
+                del toks[rng.randrange(len(toks))]
+            else:
+                toks.insert(rng.randrange(len(toks) + 1), rng.choice(["(", ")", ",", "+", "max"]))
+    return "".join(t + rng.choice(["", "", " ", " ", "  "]) if (t[0] in "+-*/%^.!~(),") else t + rng.choice([" ", " ", "\t"]) for t in toks)
+
+
+def gen_formula(rng, depth):
+    k = rng.random()
+    if depth == 0 or k < 0.2:
+        return [rng.choice(["a", "b1", "2", "0.5", "pi", "x"])]
+    if k < 0.55:
+        op = rng.choice(["+", "-", "*", "/", "%", "^", "**", "and", "or"])
+        return gen_formula(rng, depth - 1) + [op] + gen_formula(rng, depth - 1)
+    if k < 0.65:
+        return [rng.choice(["~", "!", ".-", ".+"])] + gen_formula(rng, depth - 1)
+    if k < 0.8:
+        return ["("] + gen_formula(rng, depth - 1) + [")"]
+    if k < 0.9:
+        return [rng.choice(["sin", "abs", "sqrt"]), "("] + gen_formula(rng, depth - 1) + [")"]
+    return [rng.choice(["max", "pow", "atan2"]), "("] + gen_formula(rng, depth - 1) + [","] + gen_formula(rng, depth - 1) + [")"]
+
+
+def sy_cases(ctx):
+    import fuzzylite as fl
+
+    lits, index = [], []
+    seen = set()
+    outcomes = {}
+    for _ in range(ctx.n(600, 12000)):
+        text = gen_sy_text(ctx.rng)
+        if text in seen:
+            continue
+        seen.add(text)
+        toks = fl.Function.format_infix(text).split()
+        try:
+            pf = fl.Function.infix_to_postfix(text).split()
+            plit = "(Ok %s)" % vlib.coq_list(vlib.coq_string(t) for t in pf)
+            oc = "ok"
+        except Exception as ex:  # noqa: BLE001
+            oc = ERR.get(type(ex), "EInternal:" + type(ex).__name__)
+            plit = f"(Err {oc.split(':')[0]})"
+            pf = oc
+        outcomes[oc] = outcomes.get(oc, 0) + 1
+        lits.append(f"({vlib.coq_string(text)}, {vlib.coq_list(vlib.coq_string(t) for t in toks)}, {plit})")
+        index.append({"text": text, "format_infix": toks, "infix_to_postfix": pf})
+    return lits, index, outcomes
+
+
 # --------------------------------------------------------------------------- main
 def run(ctx, build, verdict, ev):
     import fuzzylite as fl
@@ -538,13 +611,21 @@ def run(ctx, build, verdict, ev):
                 samples.append({"antecedent": atext, "conjunction": tn, "disjunction": sn, "weight": weight, "implementation": str(res[1:])})
     if clone_diff:
         verdict.add_broken("harness", "observer-clone", f"observer clone of hedge.py disagrees with the real hedges on {clone_diff} antecedents")
-    bad, log = ([], "") if build.translation_errors else vlib.run_coq_cases(ctx.work, "c06", IMPORTS, [("c06_case", "c06_check", lits)], chunk=ctx.n(100, 250))
-    mism = []
+    sy_lits, sy_index, sy_outcomes = sy_cases(ctx)
+    bad, log = ([], "") if build.translation_errors else vlib.run_coq_cases(
+        ctx.work, "c06", IMPORTS, [("c06_case", "c06_check", lits), ("c06_sy_case", "c06_sy_check", sy_lits)], chunk=ctx.n(100, 250))
+    mism, sy_mism = [], []
     for i in bad:
         if i < 0:
             verdict.add_broken("correspondence", "C06:coq-evaluation", log)
             break
-        mism.append(index[i])
+        if i < len(index):
+            mism.append(index[i])
+        else:
+            sy_mism.append(sy_index[i - len(index)])
+    if sy_mism:
+        verdict.add_broken("correspondence", "C06:shunting-yard-model",
+                           f"Function.format_infix / infix_to_postfix and Model/ShuntingYard.v differ on {len(sy_mism)} of {len(sy_index)} texts; first: {sy_mism[:3]}")
     if mism:
         m = mism[0]
         verdict.add_broken("correspondence", "C06:antecedent-model",
@@ -552,7 +633,8 @@ def run(ctx, build, verdict, ev):
                            f"conjunction {m['conjunction']} disjunction {m['disjunction']} weight {m['weight']} ({m['kind']}): implementation gives {m['impl']}; "
                            f"replay data: {m['replay']}")
     c = ev["coverage"]
-    c["evaluations"] = len(index)
+    c["evaluations"] = len(index) + len(sy_index)
+    c["shunting_yard_texts"] = {"count": len(sy_index), "outcomes": sy_outcomes}
     c["distinct_nontrivial"] = len(nontrivial)
     c["rule"] = ("random engines (1-3 variables, inputs and outputs with a pre-filled fuzzy output, Triangle/Trapezoid/Rectangle/Ramp terms, "
                  "term names incl. max/pi/min/abs/pow) x random antecedent trees of depth 0-4 (0-3 hedges, any) written with minimal/redundant/full "
@@ -560,7 +642,7 @@ def run(ctx, build, verdict, ev):
                  "non-trivial = distinct (engine, text, operators, weight) of the grammar with a finite activation degree > 0 and at least one connective or hedge")
     c["distribution"] = dist
     c["oracle_entries"] = oracle_entries
-    c["correspondence_mismatches"] = len(mism)
+    c["correspondence_mismatches"] = len(mism) + len(sy_mism)
     c["oracle_violations"] = oracle_violations
     c["samples"] = samples
     ev["assumptions"] += [
